@@ -62,6 +62,9 @@ func runC01(idx int, rng *rand.Rand, tier string) []Case {
 	if idx < len(c01Corpus) {
 		return []Case{c01Corpus[idx]()}
 	}
+	if idx%24 == 11 {
+		return []Case{c01SineGen(rng, idx)}
+	}
 	if idx%24 == 3 {
 		return []Case{c01LinGen(rng, idx)}
 	}
@@ -312,5 +315,117 @@ func c01LinLoop(f int, per time.Duration, slope float64, stalls []int64) Case {
 	c.Tag = cls + ";nt"
 	c.Dist = fmt.Sprintf("%s/n%d", cls, sizeClass(len(calls)))
 	c.Sample = map[string]interface{}{"pacer": fmt.Sprintf("Linear{%d/%d slope %g}", f, int64(per), slope), "calls": len(calls), "end": t, "hits": k}
+	return c
+}
+
+// ---- sine pacer: closed loop in virtual time ------------------------------------------------------
+func c01SineGen(rng *rand.Rand, idx int) Case {
+	period := []int64{1e9, 10e9, 60e9, 1200e9, 1e15}[rng.Intn(5)]
+	mf := int64(1 + rng.Intn(1000))
+	mp := int64(1e9)
+	if rng.Intn(4) == 0 {
+		mp = int64(1+rng.Intn(60)) * 1e9
+	}
+	// amplitude as a fraction of the mean, up to just below it
+	num := []int64{0, 1, 5, 9, 99, 999, 9999}[rng.Intn(7)]
+	den := []int64{1, 10, 10, 10, 100, 1000, 10000}[0]
+	switch num {
+	case 0:
+		den = 1
+	case 1, 5, 9:
+		den = 10
+	case 99:
+		den = 100
+	case 999:
+		den = 1000
+	default:
+		den = 10000
+	}
+	af, ap := mf*num, mp*den
+	start := []float64{vegeta.MeanUp, vegeta.Peak, vegeta.MeanDown, vegeta.Trough, rng.Float64() * 2 * math.Pi}[rng.Intn(5)]
+	if rng.Intn(12) == 0 { // invalid configurations must stop the attack
+		switch rng.Intn(3) {
+		case 0:
+			period = -period
+		case 1:
+			mf = 0
+		default:
+			af, ap = mf*2, mp
+		}
+	}
+	n := 20 + rng.Intn(300)
+	stalls := make([]int64, n)
+	mode := rng.Intn(3)
+	iv := int64(1e9)
+	if mf != 0 {
+		iv = mp / mf
+	}
+	for i := range stalls {
+		switch mode {
+		case 1:
+			if rng.Intn(10) == 0 {
+				stalls[i] = rng.Int63n(10*iv + 1)
+			}
+		case 2:
+			stalls[i] = rng.Int63n(3*iv + 1)
+		}
+	}
+	return c01SineLoop(period, mf, mp, af, ap, start, stalls)
+}
+
+func c01SineLoop(period, mf, mp, af, ap int64, start float64, stalls []int64) Case {
+	var c Case
+	sp := vegeta.SinePacer{Period: time.Duration(period), Mean: vegeta.Rate{Freq: int(mf), Per: time.Duration(mp)},
+		Amp: vegeta.Rate{Freq: int(af), Per: time.Duration(ap)}, StartAt: start}
+	var t int64
+	var k uint64
+	var calls []paceCall
+	stallfree := true
+	for _, s := range stalls {
+		if s != 0 {
+			stallfree = false
+		}
+		tc := t + s
+		o := callPace(sp, time.Duration(tc), k)
+		calls = append(calls, paceCall{tc, k, o})
+		if o.kind != 0 {
+			break
+		}
+		wt := o.w
+		if wt < 0 {
+			wt = 0
+		}
+		if tc+wt < tc || tc+wt > 4e18 {
+			break
+		}
+		t = tc + wt
+		k++
+	}
+	w := &c.W
+	w.Z(4)
+	w.Z(period); w.Z(mf); w.Z(mp); w.Z(af); w.Z(ap); w.F(start)
+	w.Bool(stallfree)
+	w.I(len(calls))
+	for _, cl := range calls {
+		w.Z(cl.tc); w.U(cl.k); w.Out(cl.o)
+	}
+	w.I(3)
+	for _, tt := range []int64{0, t / 3, t} {
+		w.Z(tt)
+		w.F(sp.Rate(time.Duration(tt)))
+	}
+	cls := "sine.loop"
+	if period <= 0 || mf <= 0 || float64(af)/float64(ap) >= float64(mf)/float64(mp) {
+		cls = "sine.invalid"
+	} else if stallfree {
+		cls = "sine.loop.stallfree"
+	}
+	c.Tag = cls + ";nt"
+	ratio := "amp0"
+	if af > 0 {
+		ratio = fmt.Sprintf("amp%.4g", float64(af)/float64(ap)/(float64(mf)/float64(mp)))
+	}
+	c.Dist = fmt.Sprintf("%s/%s/n%d", cls, ratio, sizeClass(len(calls)))
+	c.Sample = map[string]interface{}{"pacer": sp.String(), "calls": len(calls), "end": t, "hits": k}
 	return c
 }
